@@ -142,6 +142,7 @@ def _validate(ctx, rep, sub, mode, lp, mon="TimerMon", area="timer", scn_by_id=N
 def run_tst(ctx):
     rep = ctx.rep
     sub = "TimedSingleThread"
+    v0 = len(rep.violations)
     scns = tst_scenarios(ctx)
     sp = os.path.join(ctx.work, "tst_scenarios.json")
     json.dump(scns, open(sp, "w"))
@@ -204,7 +205,7 @@ def run_tst(ctx):
     _validate(ctx, rep, sub, "guided", merged, scn_by_id={x["id"]: x for x in scns})
     os.remove(merged)
     rep.note("%s guided: %d executions, %.1fs incl. validation" % (sub, sum(s["execs"] for r in res for s in r[2]), time.time() - t0))
-    if rep.violations:
+    if len(rep.violations) > v0:
         rep.note("%s: violations found in guided mode; DFS/random stages skipped" % sub)
         return
     for mode, mk in (("dfs", lambda spx: ["--mode", "dfs", "--scenarios", spx, "--bound", 2 if ctx.quick else 3, "--cap", (8 if MINI else 20) if ctx.quick else 60]),
@@ -218,7 +219,7 @@ def run_tst(ctx):
         merged = _merge_logs(ctx, res, "tst_log_%s.ndjson" % mode)
         n = _validate(ctx, rep, sub, mode, merged, scn_by_id={x["id"]: x for x in scns})
         rep.note("%s %s: %d executions, %.1fs incl. validation" % (sub, mode, nex, time.time() - t0))
-        if rep.violations:
+        if len(rep.violations) > v0:
             os.remove(merged)
             rep.note("%s: violations found in %s mode; remaining stages skipped" % (sub, mode))
             return
